@@ -91,6 +91,35 @@ pub fn select_bases(ctx: &Ctx, prop: &str) -> Vec<Base> {
             }
         }
     }
+    // synthetic triples for the heights that cannot be generated (15, 20, 25): valid by construction (one
+    // real one-time key, an arbitrary authentication path, the root they hash to); donors from an H5 key
+    let tall: Vec<(Hid, u32, u32, u32)> = if ctx.tier.thorough() {
+        let mut v = vec![];
+        for (i, h) in ALL_HASHES.iter().enumerate() {
+            for (k, ht) in [15u32, 20, 25].into_iter().enumerate() {
+                v.push((*h, [8u32, 4, 2, 1][(i + k) % 4], ht, (1u32 << ht) - 1 - (i as u32)));
+            }
+        }
+        v
+    } else {
+        vec![(Hid::S32, 8, 15, 12345), (Hid::S24, 4, 20, (1 << 20) - 1), (Hid::K16, 8, 25, (1 << 25) - 2), (Hid::S16, 4, 25, 0)]
+    };
+    for (hid, w, ht, q) in tall {
+        let par = crate::refmodel::p(w, ht);
+        if let Ok(mut b) = make_base(ctx, hid, &[crate::refmodel::p(w, 5)], 3, det_bytes(ctx.seed, "tall-msg", 41)) {
+            let id = det_bytes(ctx.seed, &format!("tall-id:{}:{}", hid.name(), ht), 16);
+            let seed = det_bytes(ctx.seed, &format!("tall-seed:{}:{}", hid.name(), ht), hid.n());
+            if let Some((sig, pk)) = b.model.synthetic_triple(par, q, &id, &seed, &b.msg) {
+                b.label = format!("synthetic-{}-h{}-w{}-q{}", hid.name(), ht, w, q);
+                b.params = vec![par];
+                b.sig = sig;
+                b.pk = pk;
+                b.fields = b.model.sig_fields(&b.sig).unwrap();
+                b.seed = None;
+                bases.push(b);
+            }
+        }
+    }
     bases
 }
 
@@ -270,5 +299,6 @@ pub fn run_c06(ctx: &Ctx) -> (&'static str, Map<String, Value>) {
     let (mc, md) = crate::props_msglen::msglen_sweep(ctx);
     extra.insert("message_length_sweep".into(), json!({"cases": mc, "rule": md}));
     extra.insert("constructor_lengths_checked".into(), json!(ctor_cases));
+    crate::props_build::restricted_cross(ctx, &mut extra, |t, _| matches!(t, crate::probe_tasks::Task::Verify { .. }));
     ("model_checking", coverage_s2(ctx, &st, &bases, extra))
 }
